@@ -186,7 +186,10 @@ def gen_srv_trace(rng, tid):
         if d["kind"] in ("balanced", "key", "pid"):
             d["ids"] = ids(rng.choice([1, 1, 2, 3]))
             part = {"balanced": {"kind": "balanced"}, "key": {"kind": "key", "key": keys[d.get("key", 0)]}, "pid": {"kind": "pid", "id": d.get("id", 0)}}[d["kind"]]
-            ops.append({"op": "send", "stream": 1, "topic": 1, "part": part, "msgs": [{"id": i, "len": rng.choice([60, 150])} for i in d["ids"]]})
+            op = {"op": "send", "stream": 1, "topic": 1, "part": part, "msgs": [{"id": i, "len": rng.choice([60, 150])} for i in d["ids"]]}
+            if rng.random() < 0.25:
+                op["c"] = "httproot"         # the HTTP API has a send handler of its own
+            ops.append(op)
         elif d["kind"] == "add":
             ops.append({"op": "create_partitions", "stream": 1, "topic": 1, "n": d["n"]})
             cur += d["n"]
